@@ -6,6 +6,8 @@ open Lean Pywbem.Proto Pywbem.Model.Uri
   {"op":"toc",  "fmt":F, "cpath":CP, "tab":TAB}  -> {"ok":[code points]}
   {"op":"from", "text":[code points], "tab":TAB} -> {"ok":P} | {"exc":name}
   {"op":"fromc","text":[code points], "tab":TAB} -> {"ok":CP} | {"exc":name}
+  {"op":"eq",   "p":P, "q":P, "tab":TAB, "reals":[[cps,class|null],…], "dts":[…]} -> {"eq":bool}   (CIMInstanceName.__eq__)
+  {"op":"eqc",  "p":CP, "q":CP, "tab":TAB}       -> {"eq":bool}   (CIMClassName.__eq__)
   {"op":"lit",  "text":[code points]}            -> {"int":"decimal"|null,"real":bool,"dt":bool,"frepr":bool}
   P   = {"host":cps|null,"ns":cps|null,"cls":cps,"keys":[[cps, V],…]}
   V   = {"t":"str","v":cps} | {"t":"bool","v":bool} | {"t":"int","v":"decimal"} | {"t":"real","v":cps}
@@ -43,6 +45,25 @@ def mkTab (j : Json) : Tab :=
   { word := fun c => if c.toNat < 128 then asciiWord c else words.contains c.toNat,
     lower := fun c => if c.toNat < 128 then [lowerAscii c] else look lowers c,
     fold := fun c => if c.toNat < 128 then [lowerAscii c] else look folds c }
+
+/-- equivalence classes of the real / datetime texts of a request, computed by the real Python (`null` = equal to nothing, NaN) -/
+def classTable (j : Json) : List (List Char × Option Nat) :=
+  match j with
+  | .arr a => a.toList.filterMap (fun e =>
+      match e with
+      | .arr p => match p.toList with
+        | [t, c] => (jsonToChars? t).map (fun t => (t, jsonToNat? c))
+        | _ => none
+      | _ => none)
+  | _ => []
+
+def sameClass (t : List (List Char × Option Nat)) (a b : List Char) : Bool :=
+  match t.find? (fun p => p.1 == a), t.find? (fun p => p.1 == b) with
+  | some (_, some x), some (_, some y) => x == y
+  | _, _ => false
+
+def mkEqTab (j : Json) : EqTab :=
+  { realSame := sameClass (classTable (getField j "reals")), dtSame := sameClass (classTable (getField j "dts")) }
 
 def optChars (j : Json) (k : String) : Option (List Char) := jsonToChars? (getField j k)
 
@@ -118,6 +139,55 @@ def handle (j : Json) : Json :=
       | .ok p => Json.mkObj [("ok", cpathToJson p)]
       | .error e => e.toJson
     | none => Json.mkObj [("bad", "text")]
+  | some "eq" =>
+    -- {"op":"eq","p":P,"q":P,"tab":TAB,"reals":[[cps,class|null],…],"dts":[[cps,class|null],…]} -> {"eq":bool}
+    match pathOfJson (getField j "p"), pathOfJson (getField j "q") with
+    | some p, some q => Json.mkObj [("eq", pathEqB T (mkEqTab j) p q)]
+    | _, _ => Json.mkObj [("bad", "path")]
+  | some "eqc" =>
+    let rd (c : Json) : Option ClassPath :=
+      (jsonToChars? (getField c "cls")).map (fun cls => { host := optChars c "host", ns := optChars c "ns", cls := cls })
+    match rd (getField j "p"), rd (getField j "q") with
+    | some p, some q => Json.mkObj [("eq", classEqB T p q)]
+    | _, _ => Json.mkObj [("bad", "cpath")]
+  | some "tofmt" =>
+    -- {"op":"tofmt","name":str,"path":P,"tab":TAB} -> {"ok":cps} | {"exc":…}     (format argument validation)
+    match pathOfJson (getField j "path") with
+    | some p => match toWbemUri T ((getStr j "name").getD "") p with
+      | .ok u => Json.mkObj [("ok", cpsToJson u)]
+      | .error e => e.toJson
+    | none => Json.mkObj [("bad", "path")]
+  | some "tofmtc" =>
+    let c := getField j "cpath"
+    match jsonToChars? (getField c "cls") with
+    | some cls => match toWbemUriClass T ((getStr j "name").getD "") { host := optChars c "host", ns := optChars c "ns", cls := cls } with
+      | .ok u => Json.mkObj [("ok", cpsToJson u)]
+      | .error e => e.toJson
+    | none => Json.mkObj [("bad", "cpath")]
+  | some "mk" =>
+    -- {"op":"mk","cls":cps,"keys":[[cps,V],…],"host":…,"ns":…,"tab":TAB} -> {"ok":P}   (constructor: namespace setter, NocaseDict copy)
+    match jsonToChars? (getField j "cls"), (getArr j "keys").mapM keyOfJson with
+    | some cls, some ks => Json.mkObj [("ok", pathToJson (mkPath T cls ks (optChars j "host") (optChars j "ns")))]
+    | _, _ => Json.mkObj [("bad", "mk")]
+  | some "hdr" =>
+    -- {"op":"hdr","kind":"text"|"cls"|"inst"|"other",…} -> {"ok":cps} | {"exc":"TypeError"}   (get_cimobject_header)
+    let arg : Option HeaderArg :=
+      match getStr j "kind" with
+      | some "text" => (getChars j "text").map .text
+      | some "cls" =>
+        let c := getField j "cpath"
+        (jsonToChars? (getField c "cls")).map (fun cls => .cls { host := optChars c "host", ns := optChars c "ns", cls := cls })
+      | some "inst" => (pathOfJson (getField j "path")).map .inst
+      | _ => some .other
+    match arg with
+    | some a => match cimObjectHeader T a with
+      | .ok u => Json.mkObj [("ok", cpsToJson u)]
+      | .error e => e.toJson
+    | none => Json.mkObj [("bad", "hdr")]
+  | some "strof" =>
+    match pathOfJson (getField j "path") with
+    | some p => Json.mkObj [("ok", cpsToJson (pathStr T p))]
+    | none => Json.mkObj [("bad", "path")]
   | some "lit" =>
     match getChars j "text" with
     | some t => Json.mkObj [("int", optToJson intToJson (intLit t)), ("real", realLit t), ("dt", dtAccepts t),
